@@ -6,7 +6,7 @@ let age_of_char = function 'd' -> ADay | 'h' -> AHour | 'm' -> AMinute | 's' -> 
 
 let config_of_string (s : string) : config =
   match split_on ',' s with
-  | [base; disc; ts; sfx; app; cap; crit; naming; cleanup; utc; link; bg] ->
+  | base :: disc :: ts :: sfx :: app :: cap :: crit :: naming :: cleanup :: utc :: link :: bg :: _ ->
     let rot =
       if crit = "~" then None else
       let c = match crit.[0] with
@@ -83,7 +83,8 @@ let string_of_obs (o : obs) : string * string =
 
 (* "<id> flw <t0> <off> ; op op ..." *)
 let run_case (toks : string list) : string =
-  match toks with
+  let rec drop_ann = function ";" :: r -> ";" :: r | _ :: r -> drop_ann r | [] -> [] in
+  match (match toks with t0 :: off :: r -> t0 :: off :: drop_ann r | l -> l) with
   | t0 :: off :: ";" :: ops ->
     let ops = List.map op_of_string (List.filter (fun s -> s <> "") ops) in
     let (_, obs) = run (sys0 (z_of_int (int_of_string t0)) (z_of_int (int_of_string off))) ops in
